@@ -571,6 +571,32 @@ def router_scenario(name, transport="tcp", peers=(("DEALER", "A"), ("DEALER", "B
             "peers": [list(p) for p in peers], "mandatory": mandatory}
 
 
+def router_poll(name, transport="tcp", npeers=24, uring=False):
+    """A ROUTER read by polling (RCVTIMEO 0) while identified DEALERs connect and send at once: the very
+    first message of a connection may be there before the ROUTER has learnt the peer's identity - it
+    must still be reported under the announced identity, never under a placeholder."""
+    ep = endpoint(transport, name)
+    o_ = [i32(IO_URING_SESSION_ENABLED, 1)] if uring else []
+    socks = [{"name": "router", "type": "ROUTER", "opts": o_ + [i32(RCVTIMEO, 0), i32(SNDTIMEO, 2500)]}]
+    peers = []
+    tasks = []
+    for pi in range(npeers):
+        nm = "p%d" % pi
+        pid = "ID-%02d" % pi
+        peers.append(("DEALER", pid))
+        socks.append({"name": nm, "type": "DEALER", "opts": o_ + [[ROUTING_ID, "str", pid], i32(RCVTIMEO, 2500), i32(SNDTIMEO, 2500), i32(LINGER, 500)]})
+        tasks.append({"name": nm, "ops": [{"op": "barrier", "name": "go", "parties": npeers + 1},
+                                         {"op": "connect", "sock": nm, "ep": "$ep"},
+                                         {"op": "send_mp", "sock": nm, "mid": "%s:1" % nm, "sizes": [24], "timeout_ms": 2500},
+                                         {"op": "send_mp", "sock": nm, "mid": "%s:2" % nm, "sizes": [24, 24], "timeout_ms": 2500},
+                                         {"op": "sleep", "ms": 1500}]})
+    tasks.append({"name": "router", "ops": [{"op": "bind", "sock": "router", "ep": ep, "save": "ep"},
+                                            {"op": "barrier", "name": "go", "parties": npeers + 1},
+                                            {"op": "poll_n", "sock": "router", "n": 2 * npeers, "for_ms": 4000, "timeout_ms": 1000}]})
+    return {"name": name, "uring": uring, "deadline_ms": 40000, "sockets": socks, "tasks": tasks,
+            "peers": [list(p) for p in peers], "mandatory": False, "poll": True}
+
+
 def router_reconnect(name, transport="tcp"):
     """A DEALER with identity A talks to the ROUTER, goes away, and a new DEALER with the same identity
     connects: messages addressed to A must reach the new connection."""
